@@ -62,3 +62,20 @@ CORPUS += [
     M("n-mac-formatted-from-full-window", D, "                device_type = int(name.split(\"_\")[1], 16)\n",
       "                device_type = int(name.split(\"_\")[1], 16)\n                off = 41 + name_length\n                if len(decrypted_mv) >= off + 4:\n                    sn = \"%02x:%02x\" % tuple(decrypted_mv[off+2:off+4])\n", "S"),
 ]
+# round 12: the task set is gathered after the listening socket was closed
+CORPUS += [
+    M("gather-inside-the-closing-try", "msmart/discover.py", """        finally:
+            transport.close()
+
+        _LOGGER.debug("Discovered %s devices.", len(protocol.tasks))
+
+        # Wait for remaining tasks
+        devices = await asyncio.gather(*protocol.tasks)
+""", """            _LOGGER.debug("Discovered %s devices.", len(protocol.tasks))
+
+            # Wait for remaining tasks
+            devices = await asyncio.gather(*protocol.tasks)
+        finally:
+            transport.close()
+"""),
+]
